@@ -185,14 +185,8 @@ func ruleC01R4(c *Ctx) {
 		c.checkOrder("C01.R4", fn, "_baseProcessMain", callInstrSet(main), "_baseOnStop()", callInstrSet(stop))
 		// every path from after the main loop to Signal passes the stop handler (nil guard on the handler tolerated)
 		if len(main) == 1 && len(stop) > 0 && len(sig) > 0 {
-			allowed := map[ssa.Value]bool{}
-			for _, st := range stop {
-				for r := range rootsOfCall(st) {
-					allowed[r] = true
-				}
-			}
 			q := &PathQ{P: c.P, Barrier: func(in ssa.Instruction) bool { return callInstrSet(stop)[in] },
-				EdgeBlocked: edgeSet(emptinessGuardEdges(fn, allowed))}
+				EdgeBlocked: edgeSet(emptinessGuardEdgesFor(fn, stop))}
 			hit, trail := q.Reach(after(main[0]), func(in ssa.Instruction) bool { return callInstrSet(sig)[in] })
 			c.check(hit == nil, "C01.R4", fn, "_baseOnStop() before _baseStopped.Signal", sig[0].Pos(),
 				"no path from the end of the main loop reaches Signal without calling the stop handler (nil-handler guard tolerated)",
